@@ -578,6 +578,38 @@ func probeInputs() []Input {
 	}
 }
 
+func mustHex(h string) []byte {
+	b, err := hex.DecodeString(h)
+	if err != nil {
+		panic(err)
+	}
+	return b
+}
+
+// directedValid: hand-written VALID modules around index-space sizes the generators do not reach (class validx: must be
+// accepted, instantiated and run on both engines).
+func directedValid() []Input {
+	header := []byte{0, 0x61, 0x73, 0x6d, 1, 0, 0, 0}
+	u := c.U32
+	var ins []Input
+	// n imported funcref globals, a table of n entries initialised by an element segment whose items are
+	// global.get 0 .. n-1 (indexes 64..127 have bit 6 set in their one-byte LEB128 encoding, 8192.. in two bytes),
+	// f0 = call_indirect (table[n-1]) which is null: traps
+	for _, n := range []uint32{65, 130} {
+		var imps, items [][]byte
+		for i := uint32(0); i < n; i++ {
+			imps = append(imps, c.Cat(c.Name("env"), c.Name(fmt.Sprintf("g%d", i)), []byte{3, 0x70, 0}))
+			items = append(items, c.Cat([]byte{0x23}, u(i), []byte{0x0b}))
+		}
+		b := c.Cat(header, c.Sec(1, c.Vec(c.FT(nil, nil))), c.Sec(2, c.Vec(imps...)), c.Sec(3, c.Vec(u(0))),
+			c.Sec(4, c.Vec(c.Cat([]byte{0x70, 0x00}, u(n)))), c.Sec(7, c.Vec(c.Export("f0", 0, 0))),
+			c.Sec(9, c.Vec(c.Cat(u(4), c.I32Const(0), []byte{0x0b}, c.Vec(items...)))),
+			c.Sec(10, c.Vec(c.Code(nil, c.I32Const(int32(n-1)), []byte{0x11, 0x00, 0x00}))))
+		ins = append(ins, Input{Class: "validx", Mut: fmt.Sprintf("directed:elem-items-global-get-0..%d", n-1), Hex: hex.EncodeToString(b)})
+	}
+	return ins
+}
+
 func genInputs(rng *c.Rng, nValid, nValid2, nMut, nRand int, withProbes bool) []Input {
 	var ins []Input
 	add := func(class, mut string, b []byte) {
@@ -596,6 +628,9 @@ func genInputs(rng *c.Rng, nValid, nValid2, nMut, nRand int, withProbes bool) []
 	}
 	if len(pool) == 0 {
 		pool = append(pool, newProgram(rng))
+	}
+	for _, d := range directedValid() {
+		add("validx", d.Mut, mustHex(d.Hex))
 	}
 	for i := 0; i < nValid2; i++ { // the structural/type-coverage generator (gen2.go)
 		add("valid2", "", genModule2(rng))
